@@ -188,11 +188,17 @@ def differential(lines):
     return a, b, diff
 
 
-def shrink_line(line, fails, max_steps=400):
-    """Delta-debug a case line (first token = component, kept) by dropping tokens and
-    shrinking integers inside tokens; `fails(line)->bool`."""
+def shrink_line(line, fails0, max_steps=400, keep=0):
+    """Delta-debug a case line (first token = component and the next `keep` parameter tokens
+    are kept) by dropping tokens and shrinking integers inside tokens; `fails(line)->bool`."""
     toks = line.split()
-    head, body = toks[0], toks[1:]
+    head, body = " ".join(toks[:1 + keep]), toks[1 + keep:]
+
+    def fails(l):
+        try:
+            return fails0(l)
+        except Exception:
+            return False
     steps = 0
     chunk = max(1, len(body) // 2)
     while chunk >= 1 and steps < max_steps:
